@@ -754,6 +754,8 @@ pub fn systems(tier: Tier) -> Vec<SysSpec> {
 pub fn run(opts: &Opts, rep: &Report) {
     let tier = tier_of(opts);
     let depth = if tier.is_thorough() { 7 } else { 6 };
+    // memories too wide to tabulate, observed through a read port (c07_bigmem)
+    crate::c07_bigmem::run(rep, tier.is_thorough());
     let budget = Budget::new(opts.budget_s);
     let specs = systems(tier);
     rep.add("systems", specs.len() as u64);
@@ -823,6 +825,10 @@ pub fn run(opts: &Opts, rep: &Report) {
 }
 
 pub fn replay(case: &Value, rep: &Report) {
+    if case["kind"] == "bigmem" {
+        crate::c07_bigmem::run(rep, false);
+        return;
+    }
     let spec = SysSpec::from_json(&case["system"]).expect("system");
     let hist: Vec<Op> = case["history"].as_array().expect("history").iter().map(|o| Op::from_text(o.as_str().unwrap()).expect("op")).collect();
     let sx = Sx::new(&spec);
